@@ -310,3 +310,97 @@ func init() {
 		return nil
 	}})
 }
+
+// ---------------------------------------------------------------- C09: one hint map handed to several Files
+
+// The caller passes ONE map[string]string to ImportNames of two Files (the usual way to use a
+// gennames table), gives one of them further names, and renders the other: it must render exactly
+// like the same File built alone from its own copy of the map; and the caller's map must still hold
+// what the caller put there (changing it afterwards must not reach a File either).
+func init() {
+	directExps = append(directExps, directExp{name: "hint-map-shared-by-two-files", prop: "C09", run: func(r *Rng) *Finding {
+		paths := []string{"gopkg.in/yaml.v2", "github.com/google/uuid", "a.com/x/codec", "b.org/codec", "example.com/db/driver", "c.io/util"}
+		names := []string{"yaml", "uuid", "codec", "guid", "yamlv2", "driver", "util", "u", "x1"}
+		m := map[string]string{}
+		for _, p := range paths {
+			if r.Chance(70) {
+				m[p] = pick(r, names)
+			}
+		}
+		extra := map[string]string{}
+		for _, p := range paths {
+			if r.Chance(50) {
+				extra[p] = pick(r, names)
+			}
+		}
+		var refs []string
+		for _, p := range paths {
+			if r.Chance(60) {
+				refs = append(refs, p)
+			}
+		}
+		if len(refs) == 0 {
+			refs = paths[:2]
+		}
+		copyOf := func(x map[string]string) map[string]string {
+			c := map[string]string{}
+			for k, v := range x {
+				c[k] = v
+			}
+			return c
+		}
+		build := func(f *jen.File) {
+			for i, p := range refs {
+				f.Var().Id(fmt.Sprintf("v%d", i)).Op("=").Qual(p, "X")
+			}
+		}
+		out := func(f *jen.File) string {
+			f.NoFormat = true
+			var b bytes.Buffer
+			if err := f.Render(&b); err != nil {
+				return "error: " + err.Error()
+			}
+			return b.String()
+		}
+		// reference: B alone, from its own copy
+		alone := jen.NewFile("b")
+		alone.ImportNames(copyOf(m))
+		build(alone)
+		want := out(alone)
+		// the history: A and B share the caller's map; A gets more names; (the caller changes the map;) B renders
+		orig := copyOf(m)
+		fa, fb := jen.NewFile("a"), jen.NewFile("b")
+		script := []string{fmt.Sprintf("m := %v; fa.ImportNames(m); fb.ImportNames(m); fa.ImportNames(%v)", m, extra)}
+		if r.Bool() {
+			fa.ImportNames(m)
+			fb.ImportNames(m)
+		} else {
+			fb.ImportNames(m)
+			fa.ImportNames(m)
+		}
+		fa.ImportNames(extra)
+		build(fa)
+		if r.Bool() {
+			out(fa)
+			script = append(script, "fa rendered")
+		}
+		if !reflect.DeepEqual(m, orig) {
+			return &Finding{Property: "C09", Shape: "caller-map-modified", What: "ImportNames changed the map the caller passed in", Case: strings.Join(script, "\n"), Expected: fmt.Sprint(orig), Observed: fmt.Sprint(m)}
+		}
+		callerChanges := r.Bool()
+		if callerChanges {
+			for k := range m {
+				m[k] = "changedByCaller"
+			}
+			script = append(script, "caller overwrites every value of m")
+		}
+		build(fb)
+		got := out(fb)
+		script = append(script, "fb built and rendered")
+		if got != want {
+			return &Finding{Property: "C09", Shape: "output-depends-on-other-files", What: "a File that received the caller's hint map renders differently from the same File built alone from its own copy of the map (another File got the same map and further names" + map[bool]string{true: "; the caller changed the map afterwards", false: ""}[callerChanges] + ")",
+				Case: strings.Join(script, "\n"), Expected: trunc(want), Observed: trunc(got)}
+		}
+		return nil
+	}})
+}
